@@ -67,15 +67,15 @@ impl<T> VIter<T> {
     #[verifier::external_body]
     pub fn chain(self, other: VIter<T>) -> (r: VIter<T>) ensures r@ == self@ + other@ { unimplemented!() }
 
-    // Iterator::collect::<B>() for the collections below (FromIterator keeps the items in order)
-    pub fn collect<B: VxFromIter<T>>(self) -> (r: B) ensures r.vx_items() == self@ { B::vx_from_iter(self) }
+    // Iterator::collect::<B>() for the collections below: `vx_built_from` is what FromIterator guarantees for that collection
+    pub fn collect<B: VxFromIter<T>>(self) -> (r: B) ensures r.vx_built_from(self@) { B::vx_from_iter(self) }
 }
 pub trait VxFromIter<T>: Sized {
-    spec fn vx_items(&self) -> Seq<T>;
-    fn vx_from_iter(it: VIter<T>) -> (r: Self) ensures r.vx_items() == it@;
+    spec fn vx_built_from(&self, items: Seq<T>) -> bool;
+    fn vx_from_iter(it: VIter<T>) -> (r: Self) ensures r.vx_built_from(it@);
 }
 impl<T> VxFromIter<T> for Vec<T> {
-    open spec fn vx_items(&self) -> Seq<T> { self@ }
+    open spec fn vx_built_from(&self, items: Seq<T>) -> bool { self@ == items }
     #[verifier::external_body] fn vx_from_iter(it: VIter<T>) -> (r: Self) { unimplemented!() }
 }
 pub open spec fn derefs<'a, T>(s: Seq<&'a T>) -> Seq<T> { Seq::new(s.len(), |i: int| *s[i]) }
@@ -114,4 +114,168 @@ pub open spec fn refs<'a, T>(s: Seq<T>) -> Seq<&'a T> { Seq::new(s.len(), |i: in
 pub trait VxSliceIter<T> { fn vx_iter<'a>(&'a self) -> VIter<&'a T>; }
 impl<T> VxSliceIter<T> for Vec<T> {
     #[verifier::external_body] fn vx_iter<'a>(&'a self) -> (r: VIter<&'a T>) ensures r@ == refs::<T>(self@) { unimplemented!() }
+}
+impl<T> VxSliceIter<T> for [T] {
+    #[verifier::external_body] fn vx_iter<'a>(&'a self) -> (r: VIter<&'a T>) ensures r@ == refs::<T>(self@) { unimplemented!() }
+}
+// the first Some(..) of g over s, None if there is none
+pub open spec fn seq_find_map<T, U>(s: Seq<T>, g: spec_fn(T) -> Option<U>) -> Option<U>
+    decreases s.len()
+{
+    if s.len() == 0 { None } else { match g(s[0]) { Some(u) => Some(u), None => seq_find_map(s.subrange(1, s.len() as int), g) } }
+}
+impl<T> VIter<T> {
+    // Iterator::find_map
+    #[verifier::external_body]
+    pub fn find_map<U, F: Fn(T) -> Option<U>>(self, f: F) -> (r: Option<U>)
+        requires forall|x: T| f.requires((x,)),
+        ensures forall|g: spec_fn(T) -> Option<U>| (forall|x: T, y: Option<U>| f.ensures((x,), y) ==> y == g(x)) ==> r == #[trigger] seq_find_map(self@, g),
+    { unimplemented!() }
+}
+// IndexMap::iter: the entries in map order, by reference
+pub open spec fn entry_refs<'a, K, V>(m: Seq<(K, V)>) -> Seq<(&'a K, &'a V)> { Seq::new(m.len(), |i: int| (&m[i].0, &m[i].1)) }
+pub open spec fn keys_distinct<K, V>(s: Seq<(K, V)>) -> bool { forall|i: int, j: int| 0 <= i < j < s.len() ==> (#[trigger] s[i]).0 != (#[trigger] s[j]).0 }
+impl<K, V> IndexMap<K, V> {
+    #[verifier::external_body] pub fn iter<'a>(&'a self) -> (r: VIter<(&'a K, &'a V)>) ensures r@ == entry_refs::<K, V>(self@) { unimplemented!() }
+}
+// FromIterator for IndexMap: with pairwise distinct keys the map holds exactly the pairs, in iteration order
+impl<K, V> VxFromIter<(K, V)> for IndexMap<K, V> {
+    open spec fn vx_built_from(&self, items: Seq<(K, V)>) -> bool { keys_distinct(items) ==> self@ == items }
+    #[verifier::external_body] fn vx_from_iter(it: VIter<(K, V)>) -> (r: Self) { unimplemented!() }
+}
+// FromIterator for a hash map: later pairs overwrite earlier ones with the same key
+pub open spec fn seq_to_map<K, V>(s: Seq<(K, V)>) -> vstd::map::Map<K, V>
+    decreases s.len()
+{
+    if s.len() == 0 { vstd::map::Map::empty() } else { seq_to_map(s.drop_last()).insert(s.last().0, s.last().1) }
+}
+impl<K, V> VxFromIter<(K, V)> for FnvHashMap<K, V> {
+    open spec fn vx_built_from(&self, items: Seq<(K, V)>) -> bool { self@ == seq_to_map(items) }
+    #[verifier::external_body] fn vx_from_iter(it: VIter<(K, V)>) -> (r: Self) { unimplemented!() }
+}
+
+// filter_map keeps relative order and every output comes from a source element: if the picked pair carries the source's key and the
+// source keys are pairwise distinct, the output keys are pairwise distinct
+pub proof fn lemma_filter_map_keys_distinct<T, K, V>(s: Seq<T>, g: spec_fn(T) -> Option<(K, V)>, key_of: spec_fn(T) -> K)
+    requires
+        forall|i: int| 0 <= i < s.len() && g(#[trigger] s[i]) is Some ==> g(s[i])->Some_0.0 == key_of(s[i]),
+        forall|i: int, j: int| 0 <= i < j < s.len() ==> key_of(#[trigger] s[i]) != key_of(#[trigger] s[j]),
+    ensures
+        keys_distinct(seq_filter_map(s, g)),
+        forall|k: int| 0 <= k < seq_filter_map(s, g).len() ==> exists|i: int| 0 <= i < s.len() && g(s[i]) == Some(#[trigger] seq_filter_map(s, g)[k]),
+    decreases s.len()
+{
+    if s.len() > 0 {
+        let p = s.drop_last();
+        lemma_filter_map_keys_distinct(p, g, key_of);
+        let rest = seq_filter_map(p, g);
+        assert forall|k: int| 0 <= k < rest.len() implies exists|i: int| 0 <= i < s.len() && g(s[i]) == Some(#[trigger] rest[k]) by {
+            let i = choose|i: int| 0 <= i < p.len() && g(p[i]) == Some(rest[k]);
+            assert(p[i] == s[i]);
+        }
+        match g(s.last()) {
+            Some(u) => {
+                let out = rest.push(u);
+                assert(seq_filter_map(s, g) == out);
+                assert forall|a: int, b: int| 0 <= a < b < out.len() implies (#[trigger] out[a]).0 != (#[trigger] out[b]).0 by {
+                    if b == rest.len() {
+                        let i = choose|i: int| 0 <= i < p.len() && g(p[i]) == Some(rest[a]);
+                        assert(p[i] == s[i]);
+                        assert(key_of(s[i]) != key_of(s[s.len() - 1]));
+                    }
+                }
+                assert forall|k: int| 0 <= k < out.len() implies exists|i: int| 0 <= i < s.len() && g(s[i]) == Some(#[trigger] out[k]) by {
+                    if k == rest.len() { assert(g(s[s.len() - 1]) == Some(out[k])); } else { assert(out[k] == rest[k]); }
+                }
+            }
+            None => { assert(seq_filter_map(s, g) == rest); }
+        }
+    }
+}
+
+// a map collected from pairs with pairwise distinct keys holds exactly those pairs
+pub proof fn lemma_seq_to_map<K, V>(s: Seq<(K, V)>)
+    requires keys_distinct(s),
+    ensures
+        forall|k: int| 0 <= k < s.len() ==> seq_to_map(s).contains_key((#[trigger] s[k]).0) && seq_to_map(s)[s[k].0] == s[k].1,
+        forall|x: K| #[trigger] seq_to_map(s).contains_key(x) ==> exists|k: int| 0 <= k < s.len() && s[k].0 == x,
+    decreases s.len()
+{
+    if s.len() > 0 {
+        let p = s.drop_last();
+        assert forall|i: int, j: int| 0 <= i < j < p.len() implies (#[trigger] p[i]).0 != (#[trigger] p[j]).0 by { assert(p[i] == s[i] && p[j] == s[j]); }
+        lemma_seq_to_map(p);
+        assert forall|k: int| 0 <= k < s.len() implies seq_to_map(s).contains_key((#[trigger] s[k]).0) && seq_to_map(s)[s[k].0] == s[k].1 by {
+            if k < p.len() { assert(p[k] == s[k]); assert(s[k].0 != s[s.len() - 1].0); }
+        }
+        assert forall|x: K| #[trigger] seq_to_map(s).contains_key(x) implies exists|k: int| 0 <= k < s.len() && s[k].0 == x by {
+            if x == s.last().0 { assert(s[s.len() - 1].0 == x); } else {
+                assert(seq_to_map(p).contains_key(x));
+                let k = choose|k: int| 0 <= k < p.len() && p[k].0 == x;
+                assert(s[k] == p[k]);
+            }
+        }
+    }
+}
+
+// the first element satisfying p, None if there is none
+pub open spec fn seq_find<T>(s: Seq<T>, p: spec_fn(T) -> bool) -> Option<T>
+    decreases s.len()
+{
+    if s.len() == 0 { None } else if p(s[0]) { Some(s[0]) } else { seq_find(s.subrange(1, s.len() as int), p) }
+}
+impl<T> VIter<T> {
+    // Iterator::find
+    #[verifier::external_body]
+    pub fn find<F: Fn(&T) -> bool>(self, f: F) -> (r: Option<T>)
+        requires forall|x: &T| f.requires((x,)),
+        ensures forall|p: spec_fn(T) -> bool| (forall|x: T, b: bool| f.ensures((&x,), b) ==> b == p(x)) ==> r == #[trigger] seq_find(self@, p),
+    { unimplemented!() }
+}
+// seq_find / seq_find_map in terms of positions
+pub proof fn lemma_seq_find<T>(s: Seq<T>, p: spec_fn(T) -> bool)
+    ensures
+        seq_find(s, p) is None <==> (forall|i: int| 0 <= i < s.len() ==> !p(#[trigger] s[i])),
+        seq_find(s, p) is Some ==> exists|i: int| 0 <= i < s.len() && p(s[i]) && seq_find(s, p) == Some(#[trigger] s[i]) && (forall|j: int| 0 <= j < i ==> !p(#[trigger] s[j])),
+    decreases s.len()
+{
+    if s.len() > 0 {
+        let t = s.subrange(1, s.len() as int);
+        lemma_seq_find(t, p);
+        if p(s[0]) {
+            assert(seq_find(s, p) == Some(s[0]));
+        } else {
+            assert forall|i: int| 0 <= i < t.len() implies t[i] == s[i + 1] by {}
+            if seq_find(t, p) is Some {
+                let i = choose|i: int| 0 <= i < t.len() && p(t[i]) && seq_find(t, p) == Some(#[trigger] t[i]) && (forall|j: int| 0 <= j < i ==> !p(#[trigger] t[j]));
+                assert(s[i + 1] == t[i]);
+                assert forall|j: int| 0 <= j < i + 1 implies !p(#[trigger] s[j]) by { if j > 0 { assert(t[j - 1] == s[j]); } }
+            } else {
+                assert forall|i: int| 0 <= i < s.len() implies !p(#[trigger] s[i]) by { if i > 0 { assert(t[i - 1] == s[i]); } }
+            }
+        }
+    }
+}
+pub proof fn lemma_seq_find_map<T, U>(s: Seq<T>, g: spec_fn(T) -> Option<U>)
+    ensures
+        seq_find_map(s, g) is None <==> (forall|i: int| 0 <= i < s.len() ==> g(#[trigger] s[i]) is None),
+        seq_find_map(s, g) is Some ==> exists|i: int| 0 <= i < s.len() && seq_find_map(s, g) == g(#[trigger] s[i]) && (forall|j: int| 0 <= j < i ==> g(#[trigger] s[j]) is None),
+    decreases s.len()
+{
+    if s.len() > 0 {
+        let t = s.subrange(1, s.len() as int);
+        lemma_seq_find_map(t, g);
+        if g(s[0]) is Some {
+            assert(seq_find_map(s, g) == g(s[0]));
+        } else {
+            assert forall|i: int| 0 <= i < t.len() implies t[i] == s[i + 1] by {}
+            if seq_find_map(t, g) is Some {
+                let i = choose|i: int| 0 <= i < t.len() && seq_find_map(t, g) == g(#[trigger] t[i]) && (forall|j: int| 0 <= j < i ==> g(#[trigger] t[j]) is None);
+                assert(s[i + 1] == t[i]);
+                assert forall|j: int| 0 <= j < i + 1 implies g(#[trigger] s[j]) is None by { if j > 0 { assert(t[j - 1] == s[j]); } }
+            } else {
+                assert forall|i: int| 0 <= i < s.len() implies g(#[trigger] s[i]) is None by { if i > 0 { assert(t[i - 1] == s[i]); } }
+            }
+        }
+    }
 }
